@@ -148,6 +148,16 @@ Proof.
   destruct (file_out false fmt vs) as [[r f]|]; [|reflexivity]. cbn. now rewrite orb_false_r.
 Qed.
 
+(** stdin and path mode lint the same thing whenever the in-file configuration scan does not abort. *)
+Theorem modes_agree : forall (src linted : Type) (scan_ok : src -> bool) (pipeline : src -> linted) s,
+  scan_ok s = true -> lint_string_m src linted scan_ok pipeline s = lint_path_m src linted pipeline s.
+Proof. intros src linted scan_ok pipeline s H. unfold lint_string_m, lint_path_m. now rewrite H. Qed.
+
+Example modes_agree_nonvacuous :
+  lint_string_m N N (fun s => negb (s =? 0)) (fun s => s + 1) 5 = Some 6 /\
+  lint_string_m N N (fun s => negb (s =? 0)) (fun s => s + 1) 0 = None /\ lint_path_m N N (fun s => s + 1) 0 = Some 1.
+Proof. vm_compute. repeat split; reflexivity. Qed.
+
 (* ------------------------------------------------------------------ fix *)
 
 (** fix exits 1 exactly when a violation that cannot be auto-fixed was found; when nothing is reported
